@@ -5,6 +5,8 @@ package main
 
 import (
 	"fmt"
+	"os"
+	"path/filepath"
 	"strings"
 
 	"github.com/antonmedv/expr/vm"
@@ -25,6 +27,13 @@ var allModes = []Mode{
 // GenCases produces n generated sources, each built under one mode and one environment.
 func GenCases(c *Ctx, n int, depth int, modes []Mode, tweak func(*G)) []*Case {
 	var out []*Case
+	// minimised past failures and directed inputs run first (corpus/<property>.txt, one source per line)
+	for _, src := range corpusLines(c.Prop) {
+		for k := 0; k < 4; k++ {
+			env := NewEnv(k, func(n int) int { return (k*7 + 3) % n })
+			out = append(out, &Case{Src: src, Mode: modes[k%len(modes)], Env: env})
+		}
+	}
 	for i := 0; i < n; i++ {
 		g := &G{r: c.Rng}
 		if i%4 == 3 {
@@ -43,6 +52,27 @@ func GenCases(c *Ctx, n int, depth int, modes []Mode, tweak func(*G)) []*Case {
 		out = append(out, &Case{Src: src, Mode: m, Env: env})
 	}
 	return out
+}
+
+func corpusLines(prop string) []string {
+	b, err := os.ReadFile(filepath.Join(verifDir(), "corpus", prop+".txt"))
+	if err != nil {
+		return nil
+	}
+	var out []string
+	for _, l := range strings.Split(string(b), "\n") {
+		l = strings.TrimSpace(l)
+		if l != "" && !strings.HasPrefix(l, "//") {
+			out = append(out, l)
+		}
+	}
+	return out
+}
+
+// verifDir is the root of the verification tree (the harness runs with cwd = <root>/harness)
+func verifDir() string {
+	wd, _ := os.Getwd()
+	return filepath.Dir(wd)
 }
 
 func envVal(cs *Case) interface{} {
